@@ -353,7 +353,7 @@ class SGen(coregen.Gen):
         if ctx.get("holes") and self.p.get("avoid_f3", True):
             actx = dict(ctx, allow_state=False, in_arm=True, vars=[v for v in ctx["vars"] if v[0] not in ctx["holes"]], holes=None)
             then, els = self.block(t, d, actx), self.block(t, d, actx)
-            if self.p.get("avoid_f20", True) and t == F:
+            if self.p.get("avoid_f20", False) and t == F:
                 then = self.no_bare_proj_tail(then)
             return Node("if", self.cond(max(d, 1), ctx), then, els)
         return super().ifexpr(t, d, ctx)
